@@ -32,7 +32,7 @@ LEVEL_NOTE = ("Trusts the 15-line definitional oracle (models/search.py) and CPy
               "'closest' is additionally judged by exact rational distances; disagreements that are pure float rounding "
               "of the two distances are the known finding K2 (KNOWN-FINDING line, exit 0).")
 TECHNIQUE = "runtime post-condition monitor on the real functions vs definitional oracle; exhaustive small scope + random"
-REQUIRED_MONITORS = ["threads:search", "c10:asked_twice", "search_post:lower", "search_post:higher", "search_post:closest"]
+REQUIRED_MONITORS = ["threads:search", "threads:first_use:search", "threads:first_use_yields_injected", "c10:asked_twice", "search_post:lower", "search_post:higher", "search_post:closest"]
 ASSUMPTIONS = ["queries non-empty and non-decreasing, array strictly increasing (the property's quantifier)",
                "empty query lists are outside the statement ('each query') and are not exercised"]
 LATTICE = [v / 2.0 for v in range(-2, 16)]
@@ -298,7 +298,7 @@ def run_random_case(ctx, sau, kind, idx):
 
 
 def run(ctx, spec):
-    if spec["kind"] == "threads":      # concurrent independent requests vs their sequential answers
+    if spec["kind"] in ("threads", "threads_cold"):      # concurrent independent requests vs their sequential answers
         return _jobs.run(ctx, spec, ["search"])
     if spec["kind"] == "suite":     # the repository's own tests with the search post-conditions attached
         from .. import suite
@@ -317,8 +317,8 @@ def run(ctx, spec):
 
 
 def replay(ctx, case):
-    if case["kind"] == "threads":
-        return _jobs.run_case(ctx, ["search"], case["idx"])
+    if case["kind"] in ("threads", "threads_cold"):
+        return _jobs.run_case(ctx, ["search"], case["idx"], cold=case["kind"] == "threads_cold")
     import traffic_weaver.sorted_array_utils as sau
     inst = Installer()
     search_mon.install(inst)
